@@ -231,3 +231,99 @@ def griddify_conserves(S, tmpl, fixed_idx):
           params=[dict(tmpl=t, fixed_idx=f) for t in TEMPLATES if t not in QUICK for f in (-1, 0, 1, 2) if f < len(TEMPLATES[t][2])])
 def griddify_conserves_more(S, tmpl, fixed_idx):
     _griddify_conservation(S, tmpl, fixed_idx, 2)
+
+
+# ---- the Allocation constructor (which every operation ends with) and the operations through it ------------------------------
+
+def _valid_cells(S, ks, EA):
+    cells = []
+    for i, k in enumerate(ks):
+        c = mk_cell(S, f"c{i}", k, False)
+        b = box(c[0])
+        S.assume(sand(b[0] >= 0, b[1] >= 0))
+        cells.append(c)
+    for i in range(len(cells)):
+        for j in range(i + 1, len(cells)):
+            S.assume(ovl(cells[i][0], cells[j][0]) <= EA)
+    return cells
+
+
+@contract(P, functions=[A + "__init__", A + "_parse_yaml_tree", A + "_check_no_overlap", A + "_calculate_areas_and_centers", A + "_calculate_bounding_box",
+                        A + "area", A + "center"], params=[dict(ks=list(k)) for k in ((1,), (2,), (1, 1), (2, 1), (0, 1))], budget_s=600,
+          scope="bounded: <= 2 cells (all values symbolic); pairwise / per-cell checks are assert-only loops")
+def allocation_constructor_contract(S, ks):
+    """Allocation(cells) is accepted iff the cells are well formed (ratios in [0,1], no pairwise overlap beyond the area
+    tolerance, inside the positive quadrant, every listed module with a non-zero total area); then it reports the cells
+    unchanged and area(m) / center(m) are the sums / area-weighted centroid by definition."""
+    E, EA = set_eps(S)
+    cells = []
+    for i, k in enumerate(ks):
+        r = mk_rect(S, f"c{i}")
+        al = {MODS[m]: S.real(f"c{i}a{m}") for m in range(k)}
+        cells.append((r, al, S.int(f"c{i}d")))
+    out = S.call(Allocation, list(cells))
+    mods = sorted({m for _, al, _ in cells for m in al})
+    tot = {m: sum(al.get(m, 0) * r.shape.w * r.shape.h for r, al, _ in cells if m in al) for m in mods}
+    wf = sand(*[sand(v >= 0, v <= 1) for _, al, _ in cells for v in al.values()], *[d >= 0 for _, _, d in cells],
+              *[ovl(cells[i][0], cells[j][0]) <= EA for i in range(len(cells)) for j in range(i + 1, len(cells))],
+              smin(*[box(r)[0] for r, _, _ in cells]) >= 0, smin(*[box(r)[1] for r, _, _ in cells]) >= 0,
+              *[snot(seq(tot[m], 0)) for m in mods])
+    S.ensure("constructor.accepted_iff_wellformed", siff(out.ok, wf))
+    S.ensure("constructor.rejection_is_a_clean_error", out.ok or out.raised(AssertionError, ZeroDivisionError))
+    if not out.ok:
+        return
+    a = out.value
+    S.ensure("constructor.cells_reported_unchanged", a.num_rectangles == len(cells) and all(x.rect is c[0] for x, c in zip(a.allocations, cells))
+             and sand(*[sand(seq(x.depth, c[2]), list(x.alloc.keys()) == list(c[1].keys()), *[seq(x.alloc[m], c[1][m]) for m in c[1]]) for x, c in zip(a.allocations, cells)]))
+    for m in mods:
+        S.ensure("constructor.module_area_is_sum_of_ratio_times_cell_area", seq(a.area(m), tot[m]))
+        mx = sum(al[m] * r.shape.w * r.shape.h * r.center.x for r, al, _ in cells if m in al)
+        my = sum(al[m] * r.shape.w * r.shape.h * r.center.y for r, al, _ in cells if m in al)
+        S.ensure("constructor.module_centre_is_the_area_weighted_centroid", sand(seq(a.center(m).x * tot[m], mx), seq(a.center(m).y * tot[m], my)))
+
+
+@contract(P, functions=[A + "refine", A + "uniform_refinement_depth", A + "griddify", A + "__init__"], budget_s=600, exact_feas_ms=0,
+          params=[dict(op=o, tmpl=t) for o, t in (("refine", "two_side_by_side_T"), ("refine", "two_stacked_T"), ("griddify", "two_side_by_side_T"),
+                                                  ("griddify", "two_stacked_T"))],
+          scope="bounded: valid allocations of 2 cells on a lattice (all coordinates / ratios / depths symbolic) through the REAL constructors, no stubs but area_overlap")
+def operations_succeed_on_valid_allocations(S, op, tmpl):
+    _operations_succeed(S, op, tmpl)
+
+
+@contract(P, tier="thorough", functions=[A + "refine", A + "uniform_refinement_depth", A + "griddify", A + "__init__"], budget_s=3000, exact_feas_ms=0,
+          shards=16, shard_depth=5, params=[dict(op="refine_uniform_griddify", tmpl=t) for t in ("two_side_by_side_T", "two_stacked_T")],
+          scope="bounded: composition refine -> uniform -> griddify on 2-cell lattice allocations through the real constructors")
+def composed_operations_succeed_on_valid_allocations(S, op, tmpl):
+    _operations_succeed(S, op, tmpl)
+
+
+def _operations_succeed(S, op, tmpl):
+    """'the operation succeeds on every valid allocation' and 'every module keeps its area and centre of mass' observed
+    through the public API (area(m), center(m)) with the real constructor re-checking the result"""
+    E, EA = set_eps(S)
+    if S.mode == "sym":
+        S.patch(Rectangle, "area_overlap", lambda self, r: ovl(self, r))      # C18 contract (spec term)
+    nx, ny, idx = TEMPLATES[tmpl]
+    X, Y = lattice(S, nx, ny, E)
+    cells = lattice_cells(S, tmpl, X, Y, 1, -1)
+    for c in cells:
+        S.assume(sand(*[v > 0 for v in c[1].values()]))
+    a0 = S.call(Allocation, list(cells))
+    S.ensure("valid.lattice_allocation_is_accepted", a0.ok)
+    if not a0.ok:
+        return
+    a = a0.value
+    area0, cx0, cy0 = a.area("M0"), a.center("M0").x, a.center("M0").y
+    t = S.real("t")
+
+    def run():
+        if op == "refine":
+            return a.refine(t, 1)
+        if op == "griddify":
+            return a.griddify()
+        return a.refine(t, 1).uniform_refinement_depth().griddify()
+    out = S.call(run)
+    S.ensure("valid.operation_succeeds", out.ok)
+    if out.ok:
+        b = out.value
+        S.ensure("valid.module_area_and_centre_of_mass_kept", sand(seq(b.area("M0"), area0), seq(b.center("M0").x, cx0), seq(b.center("M0").y, cy0)))
